@@ -146,7 +146,8 @@ func TestC18(t *testing.T) {
 			case "empty":
 				f.Source = &url.URL{}
 			}
-			sch, _ := url.Parse("https://example.com/schema.json")
+			// absolute, relative, fragment-only and non-normalised schema references: dataschema is the configured one
+			sch, _ := url.Parse(rt.Pick(cr, []string{"https://example.com/schema.json", "https://example.com/schema.json", "/schemas/v1.json", "schemas/v1.json", "#frag", "https://h.example/event/../event/v1.json", "urn:example:schema:1"}))
 			switch c.Schema {
 			case "set":
 				f.Schema = sch
@@ -170,7 +171,8 @@ func TestC18(t *testing.T) {
 			evType := "listed-type"
 			f.SignEventTypes = []string{"listed-type", "another"}
 			if c.Listed == "unlisted" {
-				evType = "unlisted-type"
+				// unlisted types on every side of the listed ones in sort order, prefixes and case variants of them
+				evType = rt.Pick(cr, []string{"unlisted-type", "aaa-unlisted", "listed", "listed-typ", "listed-type2", "Listed-type", "anothe", "b-between", "zzz"})
 			}
 			var sawCE interface{}
 			switch c.Predicate {
